@@ -21,7 +21,7 @@ from .. import dshist as H, tlc
 from ..core import Ctx, MachineryError
 
 LEVEL = "model_checking"
-COMPS = ("r", "a", ".", "..", "")
+COMPS = ("r", "a", ".", "..", "", "..\\a")
 
 _REC = {"on": False, "events": []}
 _HOOKED = False
